@@ -31,6 +31,14 @@ def prepare(ctx):
     cproc.prepare(ctx, ["plain"])
 
 
+# other spellings of the same function specifiers: the order of the specifiers and a `_Noreturn` among them change nothing about linkage or
+# about whether a definition is an inline definition (6.7.4p7)
+FN_DECOR = {"": ["_Noreturn"], "static": ["_Noreturn static", "static _Noreturn"], "extern": ["extern _Noreturn", "_Noreturn extern"],
+            "inline": ["inline _Noreturn", "_Noreturn inline", "__inline__", "inline _Noreturn inline"],
+            "extern inline": ["extern inline _Noreturn", "inline extern", "_Noreturn extern inline", "inline _Noreturn extern"],
+            "static inline": ["inline static", "static inline _Noreturn", "inline _Noreturn static"]}
+
+
 def obj_options():
     return [(s, sc, f) for s in OBJ_SPECS for sc in ("file", "block") for f in ("decl", "def")]
 
@@ -221,7 +229,7 @@ def _sig(src, it, gt):
     missing = gt[0] - it[0]
     extra = it[0] - gt[0]
     # (only when the definition itself carries `inline`: a plain definition that follows an inline declaration is not that finding)
-    if re.search(r"\binline\b[^;{]*\{", src) and missing and not extra and all(k == "func" for _, k, _, _, _ in missing) \
+    if re.search(r"\b(?:inline|__inline__)\b[^;{]*\{", src) and missing and not extra and all(k == "func" for _, k, _, _, _ in missing) \
             and {n for n, *_ in missing} == it[2] - gt[2] and it[1] == gt[1]:
         return "inline-then-extern"
     return ""
@@ -243,6 +251,16 @@ def hist_enum(ctx):
                     yield {"kind": kind, "hist": [list(h) for h in hist]}
                     if hist[0][1] == "file" and (kind == "obj" or hist[0][2] == "decl") and (n <= 2 or any(h[1] == "block" for h in hist[1:])):
                         yield {"kind": kind, "hist": [list(h) for h in hist], "label": True}
+        if kind == "fn":
+            for n in (1, 2):
+                for hist in itertools.product(opts, repeat=n):
+                    for pos in range(n):
+                        for j, d in enumerate(FN_DECOR[hist[pos][0]]):
+                            k += 1
+                            if ctx.tier == "thorough" or n == 1 or (k * 2654435761 + ctx.seed * 97) % 3 == 0:
+                                h2 = [list(h) for h in hist]
+                                h2[pos][0] = d
+                                yield {"kind": kind, "hist": h2, "decor": True}
         # histories with one declaration hidden behind a local without linkage
         hopts = [("extern", "hblock", "decl"), ("", "hblock", "decl")] if kind == "fn" else [("extern", "hblock", "decl"), ("extern _Thread_local", "hblock", "decl"), ("static", "hblock", "decl")]
         # (not with internal linkage at file scope: the hidden declaration then gets external linkage, 6.2.2p4, and the unit is
@@ -282,6 +300,8 @@ def hist_check(case, ctx):
     ok = compare(ctx, src, res, "history")
     if case.get("label"):
         res.labels.append("asm-label-history" + ("-valid" if ok else ""))
+    if case.get("decor"):
+        res.labels.append("respelled-function-specifiers" + ("-valid" if ok else ""))
     if ok and nontrivial(hist):
         res.keys.append(sha(src))
     if ok:
